@@ -89,10 +89,35 @@ class EqOpts:
 DEFAULT_EQ = EqOpts()
 
 
+def veq(a, b):
+    """Equality of leaf values (names, scalars, options of ranges), unions allowed."""
+    if a is b:
+        return True
+    if isinstance(a, Union):
+        return z_or(*[z_and(g, veq(v, b)) for g, v in a.alts])
+    if isinstance(b, Union):
+        return z_or(*[z_and(g, veq(a, v)) for g, v in b.alts])
+    if isinstance(a, Big):
+        a = a.v
+    if isinstance(b, Big):
+        b = b.v
+    if isinstance(a, str) or isinstance(b, str):
+        return a == b
+    if isinstance(a, Adt) and isinstance(b, Adt):
+        if a.variant != b.variant or len(a.fields) != len(b.fields):
+            return False
+        return z_and(*[veq(x, y) for x, y in zip(a.fields, b.fields)])
+    if isinstance(a, Struct) and isinstance(b, Struct):
+        return z_and(*[veq(a.fields[k], b.fields[k]) for k in a.fields])
+    if isinstance(a, CellV) or isinstance(b, CellV):
+        return a is b
+    return z_eq(a, b)
+
+
 def opt_eq(a, b):
     """Equality of Option<SourceRange> values as a formula."""
     if isinstance(a, Union) or isinstance(b, Union):
-        raise InternalError("union source range")
+        return veq(a, b)
     if a.variant != b.variant:
         return False
     if a.variant == "None":
@@ -105,6 +130,19 @@ def term_eq(ex, a, b, opts=DEFAULT_EQ):
     """Structural equality of two term values as a z3 formula (or Python bool)."""
     if a is b:
         return True
+    cache = getattr(ex, "eq_cache", None)
+    ckey = (id(a), id(b), id(opts))
+    if cache is not None:
+        hit = cache.get(ckey)
+        if hit is not None and hit[0] is a and hit[1] is b:
+            return hit[2]
+    r = _term_eq(ex, a, b, opts)
+    if cache is not None:
+        cache[ckey] = (a, b, r)
+    return r
+
+
+def _term_eq(ex, a, b, opts):
     va = views(ex, a)
     vb = views(ex, b)
     disj = []
@@ -123,22 +161,22 @@ def term_eq(ex, a, b, opts=DEFAULT_EQ):
 
 
 def scalar_eq(x, y):
-    if isinstance(x, Big):
-        x = x.v
-    if isinstance(y, Big):
-        y = y.v
-    return z_eq(x, y)
+    return veq(x, y)
+
+
+def name_eq(x, y):
+    return veq(x, y)
 
 
 def fields_eq(ex, c, xa, xb, opts):
     fa, fb = xa.fields, xb.fields
     if c == "Variable":
-        return z_and(fa[0] == fb[0] if opts.names else True, scalar_eq(fa[1], fb[1]))
+        return z_and(name_eq(fa[0], fb[0]) if opts.names else True, scalar_eq(fa[1], fb[1]))
     if c == "Unifier":
-        same = (fa[0] is fb[0]) if opts.cell_eq is None else opts.cell_eq(fa[0], fb[0])
+        same = veq(fa[0], fb[0]) if opts.cell_eq is None else opts.cell_eq(fa[0], fb[0])
         return z_and(same, scalar_eq(fa[1], fb[1]))
     if c in ("Lambda", "Pi"):
-        return z_and(fa[0] == fb[0] if opts.names else True, scalar_eq(fa[1], fb[1]),
+        return z_and(name_eq(fa[0], fb[0]) if opts.names else True, scalar_eq(fa[1], fb[1]),
                      term_eq(ex, fa[2], fb[2], opts) if (opts.annotations or c == "Pi") else True,
                      term_eq(ex, fa[3], fb[3], opts))
     if c == "IntegerLiteral":
@@ -150,7 +188,7 @@ def fields_eq(ex, c, xa, xb, opts):
         parts = []
         for (na, aa, xa2), (nb, ab, xb2) in zip(da, db):
             if opts.names:
-                parts.append(na == nb)
+                parts.append(name_eq(na, nb))
             if opts.annotations:
                 parts.append(term_eq(ex, aa, ab, opts))
             parts.append(term_eq(ex, xa2, xb2, opts))
@@ -272,7 +310,7 @@ class Concretizer:
             defs = self.pick(f[0])
             j["defs"] = [{"name": d[0], "ann": self.term(d[1]), "def": self.term(d[2])} for d in defs]
             j["body"] = self.term(f[1])
-        else:
+        elif f:
             j["kids"] = [self.term(x) for x in f]
         return j
 
